@@ -105,11 +105,11 @@ InitOb(p) ==
     lzw  |-> [t \in 1..Len(Q.threads) |-> 0],            \* clock of the write into the instance under construction
     \* futures: AtomicWaker slot (thread whose block_on waker is registered, 0: none); per thread the
     \* Notify behind its block_on waker, and the number of polls of the block_on in progress
-    aw   |-> [w \in Q.aws |-> 0],
+    aw   |-> [w \in Q.aws |-> [t |-> 0, g |-> 0]],      \* registered waker: thread and block_on generation (t = 0: none)
     awv  |-> [w \in Q.aws |-> BotFor(p)],               \* view handed over by the AtomicWaker's internal lock
-    bon  |-> [t \in 1..Len(Q.threads) |-> [flag |-> FALSE, spurred |-> FALSE, view |-> BotFor(p), polls |-> 0]],
+    bon  |-> [t \in 1..Len(Q.threads) |-> [flag |-> FALSE, spurred |-> FALSE, view |-> BotFor(p), polls |-> 0, gen |-> 0]],
     \* raw waker slots: a clone of the block_on waker of thread rs[s] kept in plain shared memory (0: empty)
-    rs   |-> [s \in Q.slots |-> 0] ]
+    rs   |-> [s \in Q.slots |-> [t |-> 0, g |-> 0]] ]
 
 \* the initial state of program p as a record (used by Init and by the trace spec's reset)
 I0(p) ==
@@ -642,10 +642,19 @@ LzRead(t, ins, me) ==
 \* Sub-states: "" / "bo_poll" at the start of a poll, "bo_c" register done (reg-check), "bo_r" load saw 0
 \* (check-reg), "bo_wait" Pending returned.  Returns v * 100 + number of polls.
 BoBase(t, me) == /\ SetMe(t, me) /\ UNCHANGED <<scv, st, cells>>
+\* every block_on call has a Notify of its own: a waker left over from an earlier call wakes nothing
+BoStart(t, me) ==
+  /\ ob' = [ob EXCEPT !.bon[t] = [flag |-> FALSE, spurred |-> FALSE, view |-> Bot, polls |-> 0, gen |-> @.gen + 1]]
+  /\ sub' = [sub EXCEPT ![t] = "bo_poll"]
+  /\ BoBase(t, me) /\ UnchMem /\ NoRet /\ NoRace /\ UNCHANGED <<pc, ash>>
+MyWaker(t) == [t |-> t, g |-> ob.bon[t].gen]
+NoWaker == [t |-> 0, g |-> 0]
+\* the Notify a waker u belongs to is still the one its thread is blocked on
+Alive(u) == u.t # 0 /\ ob.bon[u.t].gen = u.g
 \* register and wake both run under the AtomicWaker's lock: acquire its view, release the own one
 BoRegister(t, ins, me, nextsub) ==
   LET me1 == AcqV(me, ob.awv[ins.o]) IN
-  /\ ob' = [ob EXCEPT !.aw[ins.o] = t, !.awv[ins.o] = JoinV(@, me1.cur)]
+  /\ ob' = [ob EXCEPT !.aw[ins.o] = MyWaker(t), !.awv[ins.o] = JoinV(@, me1.cur)]
   /\ sub' = [sub EXCEPT ![t] = nextsub]
   /\ BoBase(t, me1) /\ UnchMem /\ NoRet /\ NoRace /\ UNCHANGED <<pc, ash>>
 BoCheck(t, ins, me, pendsub) ==
@@ -674,7 +683,7 @@ BoWait(t, ins, me) ==
 \*                    v = flag.load(ord); if v = 0 Pending; (second flag w named by the `k2` convention: o2 + "2")
 \*                    Ready(v) }   -- wakers hold their own clones: two of them can notify before the waiter runs
 BoStash(t, slot, nextsub) ==
-  /\ ob' = [ob EXCEPT !.rs[slot] = t]
+  /\ ob' = [ob EXCEPT !.rs[slot] = MyWaker(t)]
   /\ sub' = [sub EXCEPT ![t] = nextsub]
 \* after stashing, the future announces it with a relaxed store of 1 to the atomic o2 \o "r"; the wakers
 \* await that flag first, so they always find the slot filled (the slot itself is memory loom cannot see)
@@ -689,7 +698,8 @@ BoAnnounce(t, ins, me, nextsub) ==
     /\ NoRet /\ NoRace /\ UNCHANGED <<pc, glued, relx, scv, st, cells, ob>>
 BoRaw(t, ins, me) ==
   LET two == ins.ord2 # "" IN
-  CASE sub[t] \in {"", "bo_poll"} ->
+  CASE sub[t] = "" -> BoStart(t, me)
+    [] sub[t] = "bo_poll" ->
          /\ BoStash(t, ins.o, IF two THEN "bo_s2" ELSE "bo_a")
          /\ BoBase(t, me) /\ UnchMem /\ NoRet /\ NoRace /\ UNCHANGED <<pc, ash>>
     [] sub[t] = "bo_s2" ->
@@ -711,10 +721,12 @@ BoRaw(t, ins, me) ==
 BlockOn(t, ins, me) ==
   IF ins.k = "raw" THEN BoRaw(t, ins, me)
   ELSE IF ins.k = "reg-check"
-  THEN CASE sub[t] \in {"", "bo_poll"} -> BoRegister(t, ins, me, "bo_c")
+  THEN CASE sub[t] = "" -> BoStart(t, me)
+         [] sub[t] = "bo_poll" -> BoRegister(t, ins, me, "bo_c")
          [] sub[t] = "bo_c"    -> BoCheck(t, ins, me, "bo_wait")
          [] sub[t] = "bo_wait" -> BoWait(t, ins, me)
-  ELSE CASE sub[t] \in {"", "bo_poll"} -> BoCheck(t, ins, me, "bo_r")
+  ELSE CASE sub[t] = "" -> BoStart(t, me)
+         [] sub[t] = "bo_poll" -> BoCheck(t, ins, me, "bo_r")
          [] sub[t] = "bo_r"    -> BoRegister(t, ins, me, "bo_wait")
          [] sub[t] = "bo_wait" -> BoWait(t, ins, me)
 \* AtomicWaker::wake: take the registered waker (if any) and wake it.  Two steps: the effect, then the
@@ -722,9 +734,9 @@ BlockOn(t, ins, me) ==
 AwWake(t, ins, me) ==
   LET w == ins.o  u == ob.aw[w]  me1 == AcqV(me, ob.awv[w]) IN
   IF sub[t] = ""
-  THEN /\ ob' = IF u = 0 THEN [ob EXCEPT !.awv[w] = JoinV(@, me1.cur)]
-                ELSE [ob EXCEPT !.aw[w] = 0, !.awv[w] = JoinV(@, me1.cur),
-                                !.bon[u].flag = TRUE, !.bon[u].view = JoinV(@, me1.cur)]
+  THEN /\ ob' = IF ~Alive(u) THEN [ob EXCEPT !.aw[w] = NoWaker, !.awv[w] = JoinV(@, me1.cur)]
+                ELSE [ob EXCEPT !.aw[w] = NoWaker, !.awv[w] = JoinV(@, me1.cur),
+                                !.bon[u.t].flag = TRUE, !.bon[u.t].view = JoinV(@, me1.cur)]
        /\ sub' = [sub EXCEPT ![t] = "wk"]
        /\ SetMe(t, me1) /\ NoRet /\ NoRace /\ UnchMem /\ UnchRace /\ UNCHANGED <<pc, scv, st>>
   ELSE /\ sub' = [sub EXCEPT ![t] = ""]
@@ -735,9 +747,9 @@ AwWake(t, ins, me) ==
 RawWake(t, ins, me, take) ==
   LET s == ins.o  u == ob.rs[s] IN
   IF sub[t] = ""
-  THEN /\ ob' = IF u = 0 THEN ob
-                ELSE [ob EXCEPT !.rs[s] = IF take THEN 0 ELSE u,
-                                !.bon[u].flag = TRUE, !.bon[u].view = JoinV(@, me.cur)]
+  THEN /\ ob' = IF ~Alive(u) THEN [ob EXCEPT !.rs[s] = IF take THEN NoWaker ELSE u]
+                ELSE [ob EXCEPT !.rs[s] = IF take THEN NoWaker ELSE u,
+                                !.bon[u.t].flag = TRUE, !.bon[u.t].view = JoinV(@, me.cur)]
        /\ sub' = [sub EXCEPT ![t] = "wk"]
        /\ SetMe(t, me) /\ NoRet /\ NoRace /\ UnchMem /\ UnchRace /\ UNCHANGED <<pc, scv, st>>
   ELSE /\ sub' = [sub EXCEPT ![t] = ""]
